@@ -13,7 +13,13 @@ import (
 // splitmix64: every random choice of the harness derives from one state.
 type Rng struct{ s uint64 }
 
-func NewRng(seed uint64) *Rng { return &Rng{s: seed*0x9E3779B97F4A7C15 + 0x1234567} }
+func NewRng(seed uint64) *Rng {
+	// scramble the seed so that neighbouring seeds give unrelated streams
+	r := &Rng{s: seed ^ 0x5DEECE66D}
+	a := r.Next()
+	b := r.Next()
+	return &Rng{s: a*0xD1B54A32D192ED03 ^ (b >> 7)}
+}
 func (r *Rng) Next() uint64 {
 	r.s += 0x9E3779B97F4A7C15
 	z := r.s
